@@ -868,21 +868,28 @@ theorem EvOcc.weaken {own own' : Option Nat × Option Nat} {n : Nat} {e : Ev} (h
       · exact Or.inr (Or.inr h)
   | _ => trivial
 
+/-- a Boolean as a number of references -/
+def b2n (b : Bool) : Nat := if b then 1 else 0
+@[simp] theorem b2n_true : b2n true = 1 := rfl
+@[simp] theorem b2n_false : b2n false = 0 := rfl
+
 /-- Reference accounting across a completed task that left the owner alive: the count is back where it was, less
     the handlers' own reference if that was dropped meanwhile (it is dropped at most once, never regained). -/
 def Life (st st' : St) : Prop :=
-  st'.dead = st.dead ∧ st'.refs + (if st.userRef && !st'.userRef then 1 else 0) = st.refs ∧ (st'.userRef = true → st.userRef = true)
+  st'.dead = st.dead ∧ st'.refs + b2n (st.userRef && !st'.userRef) = st.refs ∧ (st'.userRef = true → st.userRef = true) ∧
+  st'.pen.freeze = st.pen.freeze ∧ st'.frozenRefs = st.frozenRefs
 
-theorem Life.same {st st' : St} (hr : st'.refs = st.refs) (hd : st'.dead = st.dead) (hu : st'.userRef = st.userRef) : Life st st' := by
-  refine ⟨hd, ?_, fun h => by rw [← hu]; exact h⟩
+theorem Life.same {st st' : St} (hr : st'.refs = st.refs) (hd : st'.dead = st.dead) (hu : st'.userRef = st.userRef)
+    (hp : st'.pen.freeze = st.pen.freeze := by rfl) (hf : st'.frozenRefs = st.frozenRefs := by rfl) : Life st st' := by
+  refine ⟨hd, ?_, fun h => by rw [← hu]; exact h, hp, hf⟩
   rw [hr, hu]; cases st.userRef <;> simp
 
 theorem Life.refl (st : St) : Life st st := Life.same rfl rfl rfl
 
 theorem Life.trans {a b c : St} (h1 : Life a b) (h2 : Life b c) : Life a c := by
-  obtain ⟨d1, r1, u1⟩ := h1
-  obtain ⟨d2, r2, u2⟩ := h2
-  refine ⟨d2.trans d1, ?_, fun h => u1 (u2 h)⟩
+  obtain ⟨d1, r1, u1, p1, f1⟩ := h1
+  obtain ⟨d2, r2, u2, p2, f2⟩ := h2
+  refine ⟨d2.trans d1, ?_, fun h => u1 (u2 h), p2.trans p1, f2.trans f1⟩
   cases ha : a.userRef <;> cases hb : b.userRef <;> cases hc : c.userRef <;> simp_all <;> omega
 
 /-- Two-state facts about a completed task that left the owner alive.  `own` is the occurrence the task itself
@@ -944,16 +951,22 @@ def NoDestroy (beh : Behaviour) : Prop := ∀ h n, Action.destroy ∉ (beh h n).
     the handlers (`Owner.holdsRef`, the code since fix 4d40c98); otherwise the behaviours must not do it. -/
 def Safe (own : Owner) (beh : Behaviour) : Prop := own.holdsRef = true ∨ NoDestroy beh
 
-/-- While a walker runs, an emitter holds a reference besides the handlers' own. -/
+/-- Reference accounting: every open freeze region holds a reference (when the emitters hold references at all), and
+    while a walker runs some emitter or closing region holds one more, besides the handlers' own. -/
 def RefOk (own : Owner) (st : St) : Prop :=
-  own.holdsRef = true → st.isIter = true → (if st.userRef then 2 else 1) ≤ st.refs
+  (st.frozenRefs = (if own.holdsRef then st.pen.freeze else 0) ∧
+   -- a change is remembered only inside a frozen region: `thaw` clears the flag before it delivers the batched occurrence
+   (st.pen.freeze = 0 → st.pen.changed = false)) ∧
+  (own.holdsRef = true → b2n st.userRef + st.frozenRefs + b2n st.isIter ≤ st.refs)
 
 /-- What a task needs of the state it starts in. -/
 def TaskOk (own : Owner) (beh : Behaviour) (task : Task) (st : St) : Prop :=
   match task with
   | .emitter _ _ => True
   | .unref => False
-  | .runEvent _ _ => own.holdsRef = true → (if st.userRef then 2 else 1) ≤ st.refs
+  | .pen _ => True
+  | .penRegion _ => True
+  | .runEvent _ _ => own.holdsRef = true → b2n st.userRef + st.frozenRefs + 1 ≤ st.refs
   | .walk _ _ occ cur => st.isIter = true ∧ (∀ k, cur = some k → k ∈ keys st.list) ∧ occ < st.nextOcc
   | .unbindId id => id ≠ TOMBSTONE
   | .unbindLoopOrig _ _ => False
@@ -998,9 +1011,24 @@ theorem Inv.of_userRef {st : St} (h : Inv st) (u : Bool) : Inv { st with userRef
 
 /-- RefOk only looks at the guard, the flag and the count. -/
 theorem RefOk.of_eq {own : Owner} {st st' : St} (h : RefOk own st) (hi : st'.isIter = st.isIter) (hu : st'.userRef = st.userRef)
-    (hr : st'.refs = st.refs) : RefOk own st' := by
-  intro ho hit
-  rw [hu, hr]; exact h ho (by rw [← hi]; exact hit)
+    (hr : st'.refs = st.refs) (hp : st'.pen.freeze = st.pen.freeze := by rfl) (hf : st'.frozenRefs = st.frozenRefs := by rfl)
+    (hc : st'.pen.changed = st.pen.changed := by rfl) : RefOk own st' := by
+  refine ⟨⟨by rw [hf, hp]; exact h.1.1, by rw [hp, hc]; exact h.1.2⟩, fun ho => ?_⟩
+  rw [hu, hr, hi, hf]; exact h.2 ho
+
+/-- `Inv` looks at the chain, the guard, the sweep flag, the slots and the trace only (and that the owner lives). -/
+theorem Inv.of_same {st st' : St} (h : Inv st) (hl : st'.list = st.list) (hi : st'.isIter = st.isIter)
+    (hn : st'.needsDelete = st.needsDelete) (hs : st'.slotIds = st.slotIds) (hlog : st'.log = st.log)
+    (hr : 1 ≤ st'.refs) (hd : st'.dead = false) : Inv st' :=
+  ⟨by rw [hl]; exact h.keysNodup, by rw [hl, hs]; exact h.keysLt, by rw [hl]; exact h.idsUnique, by rw [hl]; exact h.idsPos,
+    by rw [hl]; exact h.liveFn, by rw [hl, hi, hn]; exact h.tombIter, by rw [hs]; exact h.slotPos, by rw [hlog, hs]; exact h.logKeys,
+    by rw [hl, hlog]; exact h.boundInfo, by rw [hl, hlog]; exact h.liveIff, by rw [hlog]; exact h.trace,
+    by rw [hl, hlog]; exact h.order, hr, hd⟩
+
+/-- a state change that touches neither the chain nor the trace -/
+theorem Step.of_same {own : Option Nat × Option Nat} {st st' : St} (hl : st'.list = st.list) (hi : st'.isIter = st.isIter)
+    (hs : st'.slotIds = st.slotIds) (hlog : st'.log = st.log) (ho : st'.nextOcc = st.nextOcc) (hlife : Life st st') : Step own st st' :=
+  ⟨hi, fun _ => ⟨[], [], by simp [hl]⟩, by rw [ho]; exact Nat.le_refl _, ⟨[], by simp [hlog], by simp⟩, ⟨[], by simp [hs]⟩, hlife⟩
 
 section
 variable (own : Owner) (beh : Behaviour)
@@ -1023,7 +1051,7 @@ theorem good_runEvent {fuel : Nat} (ih : Good own beh fuel) (wf : Bool) (ev : In
   have h1 : Inv { st with isIter := true, nextOcc := st.nextOcc + 1, log := Ev.occBegin st.nextOcc ev wf :: st.log } :=
     h.of_push ⟨rfl, rfl⟩ rfl rfl rfl rfl (by simp [Ev.key?]) (by simp [EvOk]) (fun b hb ht => ⟨rfl, (h.tombIter b hb ht).2⟩)
   have hro1 : RefOk own { st with isIter := true, nextOcc := st.nextOcc + 1, log := Ev.occBegin st.nextOcc ev wf :: st.log } :=
-    fun ho _ => hok ho
+    ⟨hro.1, fun ho => by have := hok ho; simpa using this⟩
   have hw := ih (.walk wf ev st.nextOcc (firstOf st.list)) _ h1 hro1 ⟨rfl, fun k hk => firstOf_mem hk, Nat.lt_succ_self _⟩
   have hfires : ∀ (seg : List Ev), (∀ e ∈ seg, EvOcc (some st.nextOcc, some st.nextOcc) (st.nextOcc + 1) e) →
       ∀ e ∈ Ev.occEnd st.nextOcc :: (seg ++ [Ev.occBegin st.nextOcc ev wf]), EvOcc (none, none) st.nextOcc e := by
@@ -1057,35 +1085,36 @@ theorem good_runEvent {fuel : Nat} (ih : Good own beh fuel) (wf : Bool) (ev : In
     simp only
     rw [if_neg (show ¬ st2.dead = true by rw [h2.alive.2]; simp)]
     -- reference accounting for the state after the walk, with the guard restored
-    have hlife : ∀ st3 : St, st3.refs = st2.refs → st3.dead = st2.dead → st3.userRef = st2.userRef → Life st st3 := by
-      intro st3 e1 e2 e3
-      exact (s2.life).trans (Life.same e1 e2 e3) |> fun x => by
-        obtain ⟨a, b, c⟩ := x
-        exact ⟨a, b, c⟩
-    have hro3 : ∀ st3 : St, st3.refs = st2.refs → st3.userRef = st2.userRef → st3.isIter = st.isIter → RefOk own st3 := by
-      intro st3 e1 e3 ei ho hit
-      have hst := hro ho (by rw [← ei]; exact hit)
-      obtain ⟨_, hr, hu⟩ := s2.life
-      simp only at hr hu
-      rw [e1, e3]
-      cases hu1 : st.userRef <;> cases hu2 : st2.userRef <;> simp_all <;> omega
+    have l2 : Life st st2 := s2.life
+    have hlife : ∀ st3 : St, st3.refs = st2.refs → st3.dead = st2.dead → st3.userRef = st2.userRef →
+        st3.pen.freeze = st2.pen.freeze → st3.frozenRefs = st2.frozenRefs → Life st st3 :=
+      fun st3 e1 e2 e3 e4 e5 => l2.trans (Life.same e1 e2 e3 e4 e5)
+    have hit2 : st2.isIter = true := s2.iter
+    have hro3 : ∀ st3 : St, st3.refs = st2.refs → st3.userRef = st2.userRef →
+        st3.pen = st2.pen → st3.frozenRefs = st2.frozenRefs → RefOk own st3 := by
+      intro st3 e1 e3 e4 e5
+      refine ⟨by rw [e5, e4]; exact hro2.1, fun ho => ?_⟩
+      have := hro2.2 ho
+      rw [hit2] at this
+      rw [e1, e3, e5]
+      cases st3.isIter <;> simp at this ⊢ <;> omega
     split
     · rename_i hc
       simp only [Bool.and_eq_true, Bool.not_eq_true'] at hc
       obtain ⟨seg, hseg, hfseg⟩ := s2.logExt
-      refine Or.inl ⟨h2.alive.2, h2.of_sweep ⟨rfl, rfl⟩ rfl rfl rfl rfl, hro3 _ rfl rfl rfl, rfl, fun hi => ?_,
+      refine Or.inl ⟨h2.alive.2, h2.of_sweep ⟨rfl, rfl⟩ rfl rfl rfl rfl, hro3 _ rfl rfl rfl rfl, rfl, fun hi => ?_,
         Nat.le_trans (Nat.le_succ _) s2.occMono,
         ⟨Ev.occEnd st.nextOcc :: (seg ++ [Ev.occBegin st.nextOcc ev wf]), by simp [hseg], hfires seg hfseg⟩, s2.slotsExt,
-        hlife _ rfl rfl rfl⟩
+        hlife _ rfl rfl rfl rfl rfl⟩
       rw [hc.1] at hi; cases hi
     · rename_i hc
       simp only [Bool.and_eq_true, Bool.not_eq_true', not_and, Bool.not_eq_true] at hc
       obtain ⟨seg, hseg, hfseg⟩ := s2.logExt
-      refine Or.inl ⟨h2.alive.2, h2.of_push ⟨rfl, rfl⟩ rfl rfl rfl rfl (by simp [Ev.key?]) (by simp [EvOk]) ?_, hro3 _ rfl rfl rfl,
+      refine Or.inl ⟨h2.alive.2, h2.of_push ⟨rfl, rfl⟩ rfl rfl rfl rfl (by simp [Ev.key?]) (by simp [EvOk]) ?_, hro3 _ rfl rfl rfl rfl,
         rfl, fun _ => s2.keysIter rfl,
         Nat.le_trans (Nat.le_succ _) s2.occMono,
         ⟨Ev.occEnd st.nextOcc :: (seg ++ [Ev.occBegin st.nextOcc ev wf]), by simp [hseg], hfires seg hfseg⟩, s2.slotsExt,
-        hlife _ rfl rfl rfl⟩
+        hlife _ rfl rfl rfl rfl rfl⟩
       intro b hb ht
       have hnd := (h2.tombIter b hb ht).2
       refine ⟨?_, hnd⟩
@@ -1406,8 +1435,16 @@ theorem good_acts {fuel : Nat} (hs : Safe own beh) (ih : Good own beh fuel) (sel
     | emit ev =>
       simp only [exec, hnd, Bool.false_eq_true, if_false]
       by_cases hc : own.canEmit ev = true
-      · simp only [hc, if_true]; exact htask (.emitter (own.wf ev) ev) rfl trivial
+      · simp only [hc, if_true]
+        cases own.penEmitFg with
+        | none => exact htask (.emitter (own.wf ev) ev) rfl trivial
+        | some n => exact htask (.pen [.setCol n]) rfl trivial
       · simp only [hc]; exact hcont _ h1 hro1 s1
+    | pen op =>
+      simp only [exec, hnd, Bool.false_eq_true, if_false]
+      cases op.isRegion with
+      | true => simp only [if_true]; exact htask (.penRegion op.body) rfl trivial
+      | false => simp only [Bool.false_eq_true, if_false]; exact htask (.pen op.body) rfl trivial
     | destroy =>
       -- the handlers drop their own reference (once)
       have hholds : own.holdsRef = true := by
@@ -1422,21 +1459,22 @@ theorem good_acts {fuel : Nat} (hs : Safe own beh) (ih : Good own beh fuel) (sel
         have hu' : st.userRef = true := hu
         have h1' : Inv { st.push (Ev.actBegin i) with userRef := false } := h1.of_userRef false
         have hro1' : RefOk own { st.push (Ev.actBegin i) with userRef := false } := by
-          intro ho hit
-          have := hro ho hit
+          refine ⟨hro.1, fun ho => ?_⟩
+          have := hro.2 ho
           rw [hu'] at this
-          simp only [Bool.false_eq_true, if_false]
-          show 1 ≤ st.refs
-          simp only [if_true] at this; omega
+          show b2n false + st.frozenRefs + b2n st.isIter ≤ st.refs
+          simp at this ⊢; omega
         cases fuel with
         | zero => simp [exec, Post]
         | succ f =>
           have hur := unref_post own beh (fuel := f) hs h1' hro1' (by
             intro hit
-            have := hro hholds hit
+            have := hro.2 hholds
             rw [hu'] at this
-            simp only [if_true] at this
-            exact this)
+            have hit' : st.isIter = true := hit
+            rw [hit'] at this
+            show 2 ≤ st.refs
+            simp at this; omega)
           cases hres : exec Cfg.repaired own beh (f + 1) .unref { st.push (Ev.actBegin i) with userRef := false } with
           | outOfFuel => simp [Post]
           | ub w => rw [hres] at hur; exact hur.elim
@@ -1446,16 +1484,16 @@ theorem good_acts {fuel : Nat} (hs : Safe own beh) (ih : Good own beh fuel) (sel
             simp only
             rcases hur with ⟨hd2, hge, heq⟩ | ⟨hd2, hni, htr, hseg⟩
             · subst heq
-              refine hcont _ (h1'.of_refs _ (by simp only [St.push] at hge ⊢; omega)) ?_ ?_
-              · intro ho hit
-                have := hro ho hit
+              have hge' : 2 ≤ st.refs := hge
+              refine hcont _ (h1'.of_refs _ (by simp only [St.push]; omega)) ?_ ?_
+              · refine ⟨hro.1, fun ho => ?_⟩
+                have := hro.2 ho
                 rw [hu'] at this
-                simp only [Bool.false_eq_true, if_false, St.push]
-                simp only [if_true] at this; omega
-              · refine s1.trans ⟨rfl, fun _ => ⟨[], [], by simp⟩, Nat.le_refl _, ⟨[], rfl, by simp⟩, ⟨[], by simp⟩, ?_⟩
-                refine ⟨rfl, ?_, fun hx => by cases hx⟩
-                have hge' : 2 ≤ st.refs := hge
-                show st.refs - 1 + (if (st.userRef && !false) = true then 1 else 0) = st.refs
+                show b2n false + st.frozenRefs + b2n st.isIter ≤ st.refs - 1
+                simp at this ⊢; omega
+              · refine s1.trans (Step.of_same rfl rfl rfl rfl rfl ?_)
+                refine ⟨rfl, ?_, (fun hx => by cases hx), rfl, rfl⟩
+                show st.refs - 1 + b2n (st.userRef && !false) = st.refs
                 rw [hu']; simp; omega
             · obtain ⟨seg, hseg⟩ := hseg
               exact hdead st2 hd2 hni htr ⟨seg ++ [Ev.actBegin i], by simp [hseg, St.push]⟩
@@ -1476,17 +1514,16 @@ theorem good_emitter {fuel : Nat} (hs : Safe own beh) (ih : Good own beh fuel) (
       exact Or.inl ⟨h2.alive.2, h2, hro2, s2⟩
   | true =>
     simp only [if_true]
+    have hacc := hro.2 hh
     have h1 : Inv { st with refs := st.refs + 1 } := h.of_refs _ (by omega)
     have hro1 : RefOk own { st with refs := st.refs + 1 } := by
-      intro ho hit
-      have := hro ho hit
-      show (if st.userRef = true then 2 else 1) ≤ st.refs + 1
+      refine ⟨hro.1, fun _ => ?_⟩
+      show b2n st.userRef + st.frozenRefs + b2n st.isIter ≤ st.refs + 1
       omega
     have hok1 : TaskOk own beh (.runEvent wf ev) { st with refs := st.refs + 1 } := by
       intro _
-      have := h.alive.1
-      show (if st.userRef = true then 2 else 1) ≤ st.refs + 1
-      split <;> omega
+      show b2n st.userRef + st.frozenRefs + 1 ≤ st.refs + 1
+      omega
     have hw := ih (.runEvent wf ev) _ h1 hro1 hok1
     cases hres : exec Cfg.repaired own beh fuel (.runEvent wf ev) { st with refs := st.refs + 1 } with
     | outOfFuel => simp [Post]
@@ -1496,17 +1533,18 @@ theorem good_emitter {fuel : Nat} (hs : Safe own beh) (ih : Good own beh fuel) (
       rw [hres] at hw
       obtain ⟨h2, hro2, s2⟩ := hw.alive (Or.inr rfl)
       simp only
-      obtain ⟨_, hrefs, hmono⟩ := s2.life
-      simp only at hrefs hmono
+      obtain ⟨_, hrefs, hmono, hpf, hfr⟩ := s2.life
+      simp only at hrefs hmono hpf hfr
       cases fuel with
       | zero => simp [exec] at hres
       | succ f =>
-        -- the emitter drops its reference: the owner dies here iff the handlers dropped theirs and no other emitter is active
+        -- the emitter drops its reference: the owner dies here iff the handlers dropped theirs and nothing else holds it
         have hur := unref_post own beh (fuel := f) hs h2 hro2 (by
           intro hit
           have hit0 : st.isIter = true := by rw [← s2.iter]; exact hit
-          have := hro hh hit0
-          cases hu1 : st.userRef <;> cases hu2 : st2.userRef <;> simp_all <;> omega)
+          rw [hit0] at hacc
+          have hrefs' : st2.refs + b2n (st.userRef && !st2.userRef) = st.refs + 1 := hrefs
+          cases hu1 : st.userRef <;> cases hu2 : st2.userRef <;> simp [hu1, hu2] at hacc hrefs' hmono <;> omega)
         cases hres2 : exec Cfg.repaired own beh (f + 1) .unref st2 with
         | outOfFuel => simp [Post]
         | ub w => rw [hres2] at hur; exact hur.elim
@@ -1517,16 +1555,279 @@ theorem good_emitter {fuel : Nat} (hs : Safe own beh) (ih : Good own beh fuel) (
           rcases hur with ⟨hd3, hge, heq⟩ | ⟨hd3, hni, htr, seg, hseg⟩
           · subst heq
             refine Or.inl ⟨h2.alive.2, h2.of_refs _ (by omega), ?_, s2.iter, s2.keysIter, s2.occMono, s2.logExt, s2.slotsExt, ?_⟩
-            · intro ho hit
-              have hit0 : st.isIter = true := by rw [← s2.iter]; exact hit
-              have := hro ho hit0
-              show (if st2.userRef = true then 2 else 1) ≤ st2.refs - 1
-              cases hu1 : st.userRef <;> cases hu2 : st2.userRef <;> simp_all <;> omega
-            · refine ⟨s2.life.1, ?_, hmono⟩
-              show st2.refs - 1 + (if (st.userRef && !st2.userRef) = true then 1 else 0) = st.refs
-              cases hu1 : st.userRef <;> cases hu2 : st2.userRef <;> simp_all <;> omega
+            · refine ⟨hro2.1, fun _ => ?_⟩
+              have hi2 : st2.isIter = st.isIter := s2.iter
+              have hrefs' : st2.refs + b2n (st.userRef && !st2.userRef) = st.refs + 1 := hrefs
+              have hfr' : st2.frozenRefs = st.frozenRefs := hfr
+              show b2n st2.userRef + st2.frozenRefs + b2n st2.isIter ≤ st2.refs - 1
+              rw [hi2, hfr']
+              cases hu1 : st.userRef <;> cases hu2 : st2.userRef <;> simp [hu1, hu2] at hacc hrefs' hmono ⊢ <;> omega
+            · refine ⟨s2.life.1, ?_, hmono, hpf, hfr⟩
+              have hrefs' : st2.refs + b2n (st.userRef && !st2.userRef) = st.refs + 1 := hrefs
+              show st2.refs - 1 + b2n (st.userRef && !st2.userRef) = st.refs
+              omega
           · obtain ⟨seg2, hseg2, _⟩ := s2.logExt
             exact Or.inr ⟨hd3, rfl, by rw [← s2.iter]; exact hni, htr, seg ++ seg2, by rw [hseg, hseg2, List.append_assoc]⟩
+
+theorem exec_pen_dead {cfg : Cfg} {fuel : Nat} {steps : List PenStep} {st : St} (hd : st.dead = true) :
+    exec cfg own beh (fuel + 1) (.pen steps) st = .ok (st, 0) := by
+  cases steps with
+  | nil => simp [exec]
+  | cons a rest => simp [exec, hd]
+
+/-- A plain sequence of pen statements: each either emits at once (through an emitter), or is remembered, or opens a
+    freeze..thaw region of its own. -/
+theorem good_pen {fuel : Nat} (ih : Good own beh fuel) (steps : List PenStep) (st : St) (h : Inv st) (hro : RefOk own st) :
+    Post own (.pen steps) st (exec Cfg.repaired own beh (fuel + 1) (.pen steps) st) := by
+  cases steps with
+  | nil => simp only [exec]; exact Or.inl ⟨h.alive.2, h, hro, Step.refl _ st⟩
+  | cons step rest =>
+    have hnd : st.dead = false := h.alive.2
+    -- the rest of the sequence runs in whatever state the statement leaves
+    have hcont : ∀ st2, Inv st2 → RefOk own st2 → Step (none, none) st st2 →
+        Post own (.pen (step :: rest)) st (exec Cfg.repaired own beh fuel (.pen rest) st2) := by
+      intro st2 h2 hro2 s2
+      have hw := ih (.pen rest) st2 h2 hro2 trivial
+      cases hres : exec Cfg.repaired own beh fuel (.pen rest) st2 with
+      | outOfFuel => simp [Post]
+      | ub w => rw [hres] at hw; exact hw.elim
+      | ok p =>
+        obtain ⟨st4, r⟩ := p
+        rw [hres] at hw
+        rcases hw with ⟨hd4, h4, hro4, s4⟩ | ⟨hd4, _, hni, htr, seg, hseg⟩
+        · exact Or.inl ⟨hd4, h4, hro4, s2.trans s4⟩
+        · obtain ⟨seg2, hseg2, _⟩ := s2.logExt
+          exact Or.inr ⟨hd4, rfl, by rw [← s2.iter]; exact hni, htr, seg ++ seg2, by rw [hseg, hseg2, List.append_assoc]⟩
+    have htask : ∀ (task : Task) (st1 : St), occOf task = (none, none) → Inv st1 → RefOk own st1 → Step (none, none) st st1 →
+        TaskOk own beh task st1 →
+        Post own (.pen (step :: rest)) st (match exec Cfg.repaired own beh fuel task st1 with
+          | .ok (st2, _) => exec Cfg.repaired own beh fuel (.pen rest) st2
+          | e => e) := by
+      intro task st1 hocc h1 hro1 s1 htok
+      have hw := ih task st1 h1 hro1 htok
+      cases hres : exec Cfg.repaired own beh fuel task st1 with
+      | outOfFuel => simp [Post]
+      | ub w => rw [hres] at hw; exact hw.elim
+      | ok p =>
+        obtain ⟨st2, r⟩ := p
+        rw [hres] at hw
+        rcases hw with ⟨hd2, h2, hro2, s2⟩ | ⟨hd2, _, hni, htr, seg, hseg⟩
+        · rw [hocc] at s2
+          exact hcont st2 h2 hro2 (s1.trans s2)
+        · simp only
+          cases fuel with
+          | zero => simp [exec, Post]
+          | succ f =>
+            rw [exec_pen_dead own beh hd2]
+            obtain ⟨seg1, hseg1, _⟩ := s1.logExt
+            exact Or.inr ⟨hd2, rfl, by rw [← s1.iter]; exact hni, htr, seg ++ seg1, by rw [hseg, hseg1, List.append_assoc]⟩
+    -- a change of the pen's attributes only
+    have hpen : ∀ p : PenSt, p.freeze = st.pen.freeze → (p.freeze = 0 → p.changed = false) →
+        Inv { st with pen := p } ∧ RefOk own { st with pen := p } ∧ Step (none, none) st { st with pen := p } := by
+      intro p hp hpc
+      refine ⟨h.of_same rfl rfl rfl rfl rfl h.alive.1 h.alive.2, ⟨⟨?_, hpc⟩, hro.2⟩,
+        Step.of_same rfl rfl rfl rfl rfl (Life.same rfl rfl rfl hp rfl)⟩
+      show st.frozenRefs = if own.holdsRef = true then p.freeze else 0
+      rw [hp]; exact hro.1.1
+    -- `changed(pen)` after such a change
+    have hchanged : ∀ p : PenSt, p.freeze = st.pen.freeze → p.changed = st.pen.changed →
+        Post own (.pen (step :: rest)) st
+          (match (if p.freeze = 0 then exec Cfg.repaired own beh fuel (.emitter false 1) { st with pen := p }
+                  else .ok ({ st with pen := { p with changed := true } }, 0) : Res (St × Int)) with
+           | .ok (st2, _) => exec Cfg.repaired own beh fuel (.pen rest) st2
+           | e => e) := by
+      intro p hp hpc
+      by_cases hz : p.freeze = 0
+      · rw [if_pos hz]
+        obtain ⟨a, b, c⟩ := hpen p hp (fun hz' => by rw [hpc]; exact hro.1.2 (by rw [← hp]; exact hz'))
+        exact htask (.emitter false 1) _ rfl a b c trivial
+      · rw [if_neg hz]
+        obtain ⟨a, b, c⟩ := hpen { p with changed := true } hp (fun hz' => absurd hz' hz)
+        exact hcont _ a b c
+    simp only [exec]
+    rw [if_neg (show ¬ st.dead = true by rw [hnd]; simp)]
+    cases step with
+    | setBool v => exact hchanged { st.pen with bold := some v } rfl rfl
+    | setCol n =>
+      obtain ⟨a, b, c⟩ := hpen { st.pen with fg := some n, rgb := none } rfl hro.1.2
+      exact htask (.emitter false 1) _ rfl a b c trivial
+    | setRgb r =>
+      simp only
+      cases st.pen.fg.isSome with
+      | true => simp only [if_true]; exact hchanged { st.pen with rgb := some r } rfl rfl
+      | false => simp only [Bool.false_eq_true, if_false]; exact hcont st h hro (Step.refl _ st)
+    | copyAttrFg t => exact htask (.penRegion (attrFgBody t)) st rfl h hro (Step.refl _ st) trivial
+    | loopFg t ow =>
+      simp only
+      cases loopCopiesFg st.pen t ow with
+      | true => simp only [if_true]; exact htask (.penRegion (attrFgBody t)) st rfl h hro (Step.refl _ st) trivial
+      | false => simp only [Bool.false_eq_true, if_false]; exact hcont st h hro (Step.refl _ st)
+    | loopBold t ow =>
+      simp only
+      cases loopCopiesBold st.pen t ow with
+      | true => simp only [if_true]; exact hchanged { st.pen with bold := some (t.bold.getD false) } rfl rfl
+      | false => simp only [Bool.false_eq_true, if_false]; exact hcont st h hro (Step.refl _ st)
+
+/-- A freeze..thaw region: the reference `freeze` takes keeps the owner alive through the region's body; `thaw`
+    delivers the batched occurrence (if a change was remembered and this is the outermost region) and drops the
+    reference — which is where the owner may be destroyed, if the handlers dropped theirs meanwhile. -/
+theorem good_penRegion {fuel : Nat} (hs : Safe own beh) (ih : Good own beh fuel) (body : List PenStep) (st : St) (h : Inv st)
+    (hro : RefOk own st) :
+    Post own (.penRegion body) st (exec Cfg.repaired own beh (fuel + 1) (.penRegion body) st) := by
+  have hnd : st.dead = false := h.alive.2
+  simp only [exec]
+  rw [if_neg (show ¬ st.dead = true by rw [hnd]; simp)]
+  have h1 : Inv { st with
+      pen := { st.pen with freeze := st.pen.freeze + 1 },
+      refs := if own.holdsRef then st.refs + 1 else st.refs,
+      frozenRefs := if own.holdsRef then st.frozenRefs + 1 else st.frozenRefs } :=
+    h.of_same rfl rfl rfl rfl rfl (by have := h.alive.1; simp only; split <;> omega) hnd
+  have hro1 : RefOk own { st with
+      pen := { st.pen with freeze := st.pen.freeze + 1 },
+      refs := if own.holdsRef then st.refs + 1 else st.refs,
+      frozenRefs := if own.holdsRef then st.frozenRefs + 1 else st.frozenRefs } := by
+    have e := hro.1.1
+    refine ⟨⟨?_, fun hz => by simp at hz⟩, fun ho => ?_⟩
+    · show (if own.holdsRef = true then st.frozenRefs + 1 else st.frozenRefs) = if own.holdsRef = true then st.pen.freeze + 1 else 0
+      cases hh : own.holdsRef <;> simp [hh] at e ⊢ <;> omega
+    · have := hro.2 ho
+      show b2n st.userRef + (if own.holdsRef = true then st.frozenRefs + 1 else st.frozenRefs) + b2n st.isIter
+        ≤ if own.holdsRef = true then st.refs + 1 else st.refs
+      simp only [ho, if_true]; omega
+  have hw := ih (.pen body) _ h1 hro1 trivial
+  cases hres : exec Cfg.repaired own beh fuel (.pen body) { st with
+      pen := { st.pen with freeze := st.pen.freeze + 1 },
+      refs := if own.holdsRef then st.refs + 1 else st.refs,
+      frozenRefs := if own.holdsRef then st.frozenRefs + 1 else st.frozenRefs } with
+  | outOfFuel => simp [Post]
+  | ub w => rw [hres] at hw; exact hw.elim
+  | ok p =>
+    obtain ⟨st2, r2⟩ := p
+    rw [hres] at hw
+    simp only
+    rcases hw with ⟨hd2, h2, hro2, s2⟩ | ⟨hd2, _, hni, htr, seg, hseg⟩
+    · rw [if_neg (show ¬ st2.dead = true by rw [hd2]; simp)]
+      obtain ⟨_, hr12, hu12, hp12, hf12⟩ := s2.life
+      have hr12 : st2.refs + b2n (st.userRef && !st2.userRef) = if own.holdsRef = true then st.refs + 1 else st.refs := hr12
+      have hu12 : st2.userRef = true → st.userRef = true := hu12
+      have hp12 : st2.pen.freeze = st.pen.freeze + 1 := hp12
+      have hf12 : st2.frozenRefs = if own.holdsRef = true then st.frozenRefs + 1 else st.frozenRefs := hf12
+      have hi2 : st2.isIter = st.isIter := s2.iter
+      -- the state `thaw` continues in, whether or not it delivers the batched occurrence
+      have hthaw : ∀ (c : Bool) (st3 : St), (st2.pen.freeze = 1 → c = false) →
+          st3 = ({ st2 with pen := { st2.pen with freeze := st2.pen.freeze - 1, changed := c }
+                            frozenRefs := if own.holdsRef then st2.frozenRefs - 1 else st2.frozenRefs } : St) →
+          Inv st3 ∧ RefOk own st3 ∧ TaskOk own beh (.runEvent false 1) st3 := by
+        intro c st3 hcz he
+        subst he
+        refine ⟨h2.of_same rfl rfl rfl rfl rfl h2.alive.1 h2.alive.2, ⟨⟨?_, fun hz => hcz (by
+          have hz' : st2.pen.freeze - 1 = 0 := hz
+          omega)⟩, fun ho => ?_⟩, fun ho => ?_⟩
+        · have e := hro2.1.1
+          show (if own.holdsRef = true then st2.frozenRefs - 1 else st2.frozenRefs) = if own.holdsRef = true then st2.pen.freeze - 1 else 0
+          cases hh : own.holdsRef <;> simp [hh] at e ⊢ <;> omega
+        · have := hro2.2 ho
+          show b2n st2.userRef + (if own.holdsRef = true then st2.frozenRefs - 1 else st2.frozenRefs) + b2n st2.isIter ≤ st2.refs
+          simp only [ho, if_true] at hf12 ⊢; omega
+        · have := hro2.2 ho
+          show b2n st2.userRef + (if own.holdsRef = true then st2.frozenRefs - 1 else st2.frozenRefs) + 1 ≤ st2.refs
+          simp only [ho, if_true] at hf12 ⊢
+          have : b2n st2.isIter ≤ 1 := by cases st2.isIter <;> simp
+          omega
+      -- what remains after the (possible) occurrence: drop the region's reference
+      have hfin : ∀ st4 : St, Inv st4 → RefOk own st4 → st4.isIter = st.isIter →
+          (st.isIter = true → ∃ P A, keys st4.list = P ++ keys st.list ++ A) → st.nextOcc ≤ st4.nextOcc →
+          (∃ seg, st4.log = seg ++ st.log ∧ ∀ e ∈ seg, EvOcc (none, none) st.nextOcc e) →
+          (∃ ext, st4.slotIds = st.slotIds ++ ext) →
+          st4.refs + b2n (st.userRef && !st4.userRef) = (if own.holdsRef = true then st.refs + 1 else st.refs) →
+          (st4.userRef = true → st.userRef = true) → st4.pen.freeze = st.pen.freeze → st4.frozenRefs = st.frozenRefs →
+          Post own (.penRegion body) st (if own.holdsRef = true then exec Cfg.repaired own beh fuel .unref st4 else .ok (st4, 0)) := by
+        intro st4 h4 hro4 hi4 hk4 ho4 hl4 hs4 hr4 hu4 hp4 hf4
+        cases hh : own.holdsRef with
+        | false =>
+          simp only [Bool.false_eq_true, if_false]
+          simp only [hh, Bool.false_eq_true, if_false] at hr4
+          exact Or.inl ⟨h4.alive.2, h4, hro4, hi4, hk4, ho4, hl4, hs4, h4.alive.2.trans hnd.symm, hr4, hu4, hp4, hf4⟩
+        | true =>
+          simp only [if_true]
+          simp only [hh, if_true] at hr4
+          have hacc := hro.2 hh
+          cases fuel with
+          | zero => simp [exec, Post]
+          | succ f =>
+            have hur := unref_post own beh (fuel := f) hs h4 hro4 (by
+              intro hit
+              have hit0 : st.isIter = true := by rw [← hi4]; exact hit
+              rw [hit0] at hacc
+              cases hu1 : st.userRef <;> cases hu2 : st4.userRef <;> simp [hu1, hu2] at hacc hr4 hu4 <;> omega)
+            cases hres4 : exec Cfg.repaired own beh (f + 1) .unref st4 with
+            | outOfFuel => simp [Post]
+            | ub w => rw [hres4] at hur; exact hur.elim
+            | ok p4 =>
+              obtain ⟨st5, r5⟩ := p4
+              rw [hres4] at hur
+              rcases hur with ⟨hd5, hge, heq⟩ | ⟨hd5, hni5, htr5, seg5, hseg5⟩
+              · subst heq
+                refine Or.inl ⟨h4.alive.2, h4.of_refs _ (by omega), ⟨hro4.1, fun _ => ?_⟩, hi4, hk4, ho4, hl4, hs4,
+                  h4.alive.2.trans hnd.symm, ?_, hu4, hp4, hf4⟩
+                · show b2n st4.userRef + st4.frozenRefs + b2n st4.isIter ≤ st4.refs - 1
+                  rw [hi4, hf4]
+                  cases hu1 : st.userRef <;> cases hu2 : st4.userRef <;> simp [hu1, hu2] at hacc hr4 hu4 ⊢ <;> omega
+                · show st4.refs - 1 + b2n (st.userRef && !st4.userRef) = st.refs
+                  omega
+              · obtain ⟨seg4, hseg4, _⟩ := hl4
+                exact Or.inr ⟨hd5, rfl, by rw [← hi4]; exact hni5, htr5, seg5 ++ seg4, by rw [hseg5, hseg4, List.append_assoc]⟩
+      -- does `thaw` deliver the batched occurrence?
+      cases hem : (decide (st2.pen.freeze = 1) && st2.pen.changed) with
+      | false =>
+        simp only [Bool.false_eq_true, if_false]
+        obtain ⟨h3, hro3, _⟩ := hthaw st2.pen.changed _ (fun h1 => by simpa [h1] using hem) rfl
+        obtain ⟨seg2, hseg2, hf2⟩ := s2.logExt
+        refine hfin _ h3 hro3 hi2 s2.keysIter s2.occMono ⟨seg2, hseg2, hf2⟩ s2.slotsExt hr12 hu12 ?_ ?_
+        · show st2.pen.freeze - 1 = st.pen.freeze
+          omega
+        · show (if own.holdsRef = true then st2.frozenRefs - 1 else st2.frozenRefs) = st.frozenRefs
+          cases hh : own.holdsRef <;> simp [hh] at hf12 ⊢ <;> omega
+      | true =>
+        simp only [if_true]
+        obtain ⟨h3, hro3, hok3⟩ := hthaw false _ (fun _ => rfl) rfl
+        have hw3 := ih (.runEvent false 1) _ h3 hro3 hok3
+        cases hres3 : exec Cfg.repaired own beh fuel (.runEvent false 1)
+            { st2 with pen := { st2.pen with freeze := st2.pen.freeze - 1, changed := false },
+                       frozenRefs := if own.holdsRef then st2.frozenRefs - 1 else st2.frozenRefs } with
+        | outOfFuel => simp [Post]
+        | ub w => rw [hres3] at hw3; exact hw3.elim
+        | ok p3 =>
+          obtain ⟨st4, r4⟩ := p3
+          rw [hres3] at hw3
+          obtain ⟨h4, hro4, s4⟩ := hw3.alive (Or.inr rfl)
+          simp only
+          obtain ⟨_, hr34, hu34, hp34, hf34⟩ := s4.life
+          have hr34 : st4.refs + b2n (st2.userRef && !st4.userRef) = st2.refs := hr34
+          have hu34 : st4.userRef = true → st2.userRef = true := hu34
+          have hp34 : st4.pen.freeze = st2.pen.freeze - 1 := hp34
+          have hf34 : st4.frozenRefs = if own.holdsRef = true then st2.frozenRefs - 1 else st2.frozenRefs := hf34
+          have hi4 : st4.isIter = st2.isIter := s4.iter
+          obtain ⟨seg2, hseg2, hf2⟩ := s2.logExt
+          obtain ⟨seg4, hseg4, hf4⟩ := s4.logExt
+          obtain ⟨e2, he2⟩ := s2.slotsExt
+          obtain ⟨e4, he4⟩ := s4.slotsExt
+          refine hfin st4 h4 hro4 (hi4.trans hi2) (fun hit => ?_) (Nat.le_trans s2.occMono s4.occMono)
+            ⟨seg4 ++ seg2, by rw [hseg4]; simp only; rw [hseg2, List.append_assoc], ?_⟩
+            ⟨e2 ++ e4, by rw [he4]; simp only; rw [he2, List.append_assoc]⟩ ?_ (fun hx => hu12 (hu34 hx)) ?_ ?_
+          · obtain ⟨P1, A1, hk1⟩ := s2.keysIter hit
+            obtain ⟨P2, A2, hk2⟩ := s4.keysIter (hi2.trans hit)
+            exact ⟨P2 ++ P1, A1 ++ A2, by rw [hk2]; simp only; rw [hk1]; simp⟩
+          · intro e hm
+            rcases List.mem_append.1 hm with hm | hm
+            · exact (hf4 e hm).mono s2.occMono
+            · exact hf2 e hm
+          · cases hu1 : st.userRef <;> cases hu2 : st2.userRef <;> cases hu4 : st4.userRef <;>
+              simp [hu1, hu2, hu4] at hr12 hr34 hu12 hu34 ⊢ <;> omega
+          · omega
+          · cases hh : own.holdsRef <;> simp [hh] at hf12 hf34 ⊢ <;> omega
+    · rw [if_pos hd2]
+      exact Or.inr ⟨hd2, rfl, hni, htr, seg, hseg⟩
 
 /-- **Main lemma.**  For every owner and behaviour that are `Safe` — the behaviours never drop the owner's last
     reference from inside a handler, or the owner's emitters hold a reference while they run the handlers — every task,
@@ -1541,6 +1842,8 @@ theorem exec_good (hs : Safe own beh) : ∀ fuel, Good own beh fuel := by
     cases task with
     | emitter wf ev => exact good_emitter own beh hs ih wf ev st h hro
     | unref => exact hok.elim
+    | pen steps => exact good_pen own beh ih steps st h hro
+    | penRegion body => exact good_penRegion own beh hs ih body st h hro
     | runEvent wf ev => exact good_runEvent own beh ih wf ev st h hro hok
     | walk wf ev occ cur => exact good_walk own beh ih wf ev occ cur st h hro hok
     | unbindId id => exact good_unbindId own beh ih id st h hro hok
@@ -1935,7 +2238,7 @@ theorem unref_destroys {fuel : Nat} {st st' : St} {r : Int} (h : Inv st) (hni : 
     in which the owner lives and the invariant holds, swept, with every binding of the chain live — and only then the
     remaining bindings that asked were notified, in reverse chain order, each once. -/
 theorem emitter_destroys (hs : Safe own beh) (hh : own.holdsRef = true) {fuel : Nat} {wf : Bool} {ev : Int} {st st' : St} {r : Int}
-    (h : Inv st) (hni : st.isIter = false)
+    (h : Inv st) (hro : RefOk own st) (hni : st.isIter = false)
     (hex : exec Cfg.repaired own beh fuel (.emitter wf ev) st = .ok (st', r)) (hd : st'.dead = true) :
     ∃ st2 fuel', exec Cfg.repaired own beh fuel' (.runEvent wf ev) { st with refs := st.refs + 1 } = .ok (st2, r) ∧
       Inv st2 ∧ st2.isIter = false ∧ (∀ b ∈ st2.list, b.id ≠ TOMBSTONE) ∧ st'.list = [] ∧
@@ -1946,15 +2249,15 @@ theorem emitter_destroys (hs : Safe own beh) (hh : own.holdsRef = true) {fuel : 
   | succ fuel =>
     simp only [exec, hh, if_true] at hex
     have h1 : Inv { st with refs := st.refs + 1 } := h.of_refs _ (by omega)
+    have hacc := hro.2 hh
     have hro1 : RefOk own { st with refs := st.refs + 1 } := by
-      intro _ hit
-      have : st.isIter = true := hit
-      rw [hni] at this; cases this
+      refine ⟨hro.1, fun _ => ?_⟩
+      show b2n st.userRef + st.frozenRefs + b2n st.isIter ≤ st.refs + 1
+      omega
     have hok1 : TaskOk own beh (.runEvent wf ev) { st with refs := st.refs + 1 } := by
       intro _
-      have := h.alive.1
-      show (if st.userRef = true then 2 else 1) ≤ st.refs + 1
-      split <;> omega
+      show b2n st.userRef + st.frozenRefs + 1 ≤ st.refs + 1
+      omega
     have hw := exec_good own beh hs fuel (.runEvent wf ev) _ h1 hro1 hok1
     cases hres : exec Cfg.repaired own beh fuel (.runEvent wf ev) { st with refs := st.refs + 1 } with
     | outOfFuel => rw [hres] at hex; simp at hex
@@ -1979,6 +2282,102 @@ theorem emitter_destroys (hs : Safe own beh) (hh : own.holdsRef = true) {fuel : 
 
 end
 
+/-! ### a pen operation that changes nothing is not an occurrence -/
+
+section
+variable (own : Owner) (beh : Behaviour)
+
+theorem exec_pen_nil {cfg : Cfg} {fuel : Nat} {st st2 : St} {r : Int}
+    (hex : exec cfg own beh fuel (.pen []) st = .ok (st2, r)) : st2 = st := by
+  cases fuel with
+  | zero => simp [exec] at hex
+  | succ f => simp only [exec] at hex; injection hex with hex; injection hex with e _; exact e.symm
+
+theorem exec_pen_loopBold_skip {cfg : Cfg} {fuel : Nat} {st st2 : St} {r : Int} {t : Tmpl} {ow : Bool}
+    (hbd : loopCopiesBold st.pen t ow = false)
+    (hex : exec cfg own beh fuel (.pen [.loopBold t ow]) st = .ok (st2, r)) : st2 = st := by
+  cases fuel with
+  | zero => simp [exec] at hex
+  | succ f =>
+    simp only [exec] at hex
+    split at hex
+    · injection hex with hex; injection hex with e _; exact e.symm
+    · rw [hbd] at hex
+      simp only [Bool.false_eq_true, if_false] at hex
+      exact exec_pen_nil own beh hex
+
+theorem exec_pen_loops_skip {cfg : Cfg} {fuel : Nat} {st st2 : St} {r : Int} {t : Tmpl} {ow : Bool}
+    (hfg : loopCopiesFg st.pen t ow = false) (hbd : loopCopiesBold st.pen t ow = false)
+    (hex : exec cfg own beh fuel (.pen [.loopFg t ow, .loopBold t ow]) st = .ok (st2, r)) : st2 = st := by
+  cases fuel with
+  | zero => simp [exec] at hex
+  | succ f =>
+    simp only [exec] at hex
+    split at hex
+    · injection hex with hex; injection hex with e _; exact e.symm
+    · rw [hfg] at hex
+      simp only [Bool.false_eq_true, if_false] at hex
+      exact exec_pen_loopBold_skip own beh hbd hex
+
+theorem exec_unref_alive {cfg : Cfg} {fuel : Nat} {st st2 : St} {r : Int} (hd : st.dead = false) (hr : 2 ≤ st.refs)
+    (hex : exec cfg own beh fuel .unref st = .ok (st2, r)) : st2 = { st with refs := st.refs - 1 } := by
+  cases fuel with
+  | zero => simp [exec] at hex
+  | succ f =>
+    simp only [exec] at hex
+    rw [if_neg (by rw [hd]; simp; omega), if_neg (by simp; omega)] at hex
+    injection hex with hex; injection hex with e _; exact e.symm
+
+/-- `tickit_pen_copy(pen, t, overwrite)` when the pen already satisfies the template (nothing to copy): no handler is
+    called and nothing is recorded — at top level, inside a handler, inside the batched occurrence of an enclosing
+    region alike — because a change is only remembered inside a frozen region and `thaw` clears the flag *before* it
+    delivers (`RefOk`'s third clause).  The owner lives on and its chain is untouched. -/
+theorem region_nothing_to_copy {fuel : Nat} {st st' : St} {r : Int} {t : Tmpl} {ow : Bool} (h : Inv st) (hro : RefOk own st)
+    (hfg : loopCopiesFg st.pen t ow = false) (hbd : loopCopiesBold st.pen t ow = false)
+    (hex : exec Cfg.repaired own beh fuel (.penRegion [.loopFg t ow, .loopBold t ow]) st = .ok (st', r)) :
+    st'.log = st.log ∧ st'.dead = false ∧ st'.list = st.list ∧ st'.pen = st.pen ∧ st'.refs = st.refs := by
+  have hnd := h.alive.2
+  have hr := h.alive.1
+  have hpc := hro.1.2
+  cases fuel with
+  | zero => simp [exec] at hex
+  | succ fuel =>
+    simp only [exec] at hex
+    rw [if_neg (by rw [hnd]; simp)] at hex
+    cases hres : exec Cfg.repaired own beh fuel (.pen [.loopFg t ow, .loopBold t ow]) { st with
+        pen := { st.pen with freeze := st.pen.freeze + 1 },
+        refs := if own.holdsRef then st.refs + 1 else st.refs,
+        frozenRefs := if own.holdsRef then st.frozenRefs + 1 else st.frozenRefs } with
+    | outOfFuel => rw [hres] at hex; simp at hex
+    | ub w => rw [hres] at hex; simp at hex
+    | ok p =>
+      obtain ⟨st2, r2⟩ := p
+      rw [hres] at hex
+      have e2 := exec_pen_loops_skip own beh (st := { st with
+        pen := { st.pen with freeze := st.pen.freeze + 1 },
+        refs := if own.holdsRef then st.refs + 1 else st.refs,
+        frozenRefs := if own.holdsRef then st.frozenRefs + 1 else st.frozenRefs }) hfg hbd hres
+      subst e2
+      simp only at hex
+      rw [if_neg (by rw [hnd]; simp)] at hex
+      have hem : (decide (st.pen.freeze + 1 = 1) && st.pen.changed) = false := by
+        by_cases hz : st.pen.freeze = 0
+        · simp [hz, hpc hz]
+        · simp [hz]
+      rw [hem] at hex
+      simp only [Bool.false_eq_true, if_false] at hex
+      cases hh : own.holdsRef with
+      | false =>
+        simp only [hh, Bool.false_eq_true, if_false] at hex
+        injection hex with hex; injection hex with e1 _
+        rw [← e1]; simp [hnd]
+      | true =>
+        simp only [hh, if_true] at hex
+        have e3 := exec_unref_alive own beh (by exact hnd) (by show 2 ≤ st.refs + 1; omega) hex
+        rw [e3]; simp [hnd]
+
+end
+
 /-! ### top level: operations and histories -/
 
 /-- Between operations no walker runs (hence there are no tombstones: `Inv.tombIter`). -/
@@ -1991,8 +2390,8 @@ theorem Top.no_tombstones {st : St} (h : Top st) : ∀ b ∈ st.list, b.id ≠ T
   have := (h.1.tombIter b hb ht).1
   rw [h.2] at this; cases this
 
-theorem Top.refOk {st : St} (h : Top st) (own : Owner) : RefOk own st := by
-  intro _ hit; rw [h.2] at hit; cases hit
+theorem RefOk.init (own : Owner) : RefOk own St.init := by
+  refine ⟨⟨by simp [St.init], by simp [St.init]⟩, fun _ => by simp [St.init]⟩
 
 /-- identifiers handed to `unbind` are identifiers, not the tombstone mark -/
 def OpOk : Op → Prop
@@ -2001,8 +2400,8 @@ def OpOk : Op → Prop
 
 /-- After an operation: the owner lives and the invariant holds, or a handler dropped the last reference and the
     owner has been destroyed (the trace stays well formed). -/
-def PostOp (st : St) : Res St → Prop
-  | .ok st' => (st'.dead = false ∧ Top st' ∧ Step (none, none) st st') ∨ (st'.dead = true ∧ DeadStep st st')
+def PostOp (own : Owner) (st : St) : Res St → Prop
+  | .ok st' => (st'.dead = false ∧ Top st' ∧ RefOk own st' ∧ Step (none, none) st st') ∨ (st'.dead = true ∧ DeadStep st st')
   | .ub _ => False
   | .outOfFuel => True
 
@@ -2010,52 +2409,59 @@ section
 variable (own : Owner) (beh : Behaviour)
 
 theorem postOp_of_post {task : Task} (hocc : occOf task = (none, none)) {st : St} (hi : st.isIter = false) {r : Res (St × Int)}
-    (h : Post own task st r) : PostOp st r.dropRet := by
+    (h : Post own task st r) : PostOp own st r.dropRet := by
   cases r with
   | ok p =>
     obtain ⟨st', x⟩ := p
-    rcases h with ⟨hd, h1, _, s⟩ | ⟨hd, _, _, ds⟩
+    rcases h with ⟨hd, h1, hr1, s⟩ | ⟨hd, _, _, ds⟩
     · rw [hocc] at s
-      exact Or.inl ⟨hd, ⟨h1, s.iter.trans hi⟩, s⟩
+      exact Or.inl ⟨hd, ⟨h1, s.iter.trans hi⟩, hr1, s⟩
     · exact Or.inr ⟨hd, ds⟩
   | ub w => exact h
   | outOfFuel => trivial
 
-theorem execOp_good (hs : Safe own beh) (fuel : Nat) (op : Op) (hop : OpOk op) (hne : op ≠ .destroy) (st : St) (h : Top st) :
-    PostOp st (execOp Cfg.repaired own beh fuel op st) := by
+theorem execOp_good (hs : Safe own beh) (fuel : Nat) (op : Op) (hop : OpOk op) (hne : op ≠ .destroy) (st : St) (h : Top st)
+    (hro : RefOk own st) : PostOp own st (execOp Cfg.repaired own beh fuel op st) := by
   have good := exec_good own beh hs fuel
-  have hro := h.refOk own
   cases op with
   | bind ev first flags hh =>
     simp only [execOp, PostOp]
-    exact Or.inl ⟨(h.1.of_bind ev first flags hh).alive.2, ⟨h.1.of_bind ev first flags hh, h.2⟩,
+    exact Or.inl ⟨(h.1.of_bind ev first flags hh).alive.2, ⟨h.1.of_bind ev first flags hh, h.2⟩, hro.of_eq rfl rfl rfl,
       ⟨rfl, fun hi => (by rw [h.2] at hi; cases hi), Nat.le_refl _, ⟨[_], rfl, by simp [EvOcc]⟩, ⟨[_], rfl⟩, Life.same rfl rfl rfl⟩⟩
   | unbind slot =>
     simp only [execOp]
     cases hsl : st.slotIds[slot]? with
-    | none => exact Or.inl ⟨h.1.alive.2, h, Step.refl _ st⟩
+    | none => exact Or.inl ⟨h.1.alive.2, h, hro, Step.refl _ st⟩
     | some id => exact postOp_of_post own rfl h.2 (good (.unbindId id) st h.1 hro (slotIds_ne_tomb h.1 hsl))
   | unbindId id => exact postOp_of_post own rfl h.2 (good (.unbindId id) st h.1 hro hop)
   | emit ev =>
     simp only [execOp]
     by_cases hc : own.canEmit ev = true
-    · simp only [hc, if_true]; exact postOp_of_post own rfl h.2 (good (.emitter (own.wf ev) ev) st h.1 hro trivial)
-    · simp only [hc]; exact Or.inl ⟨h.1.alive.2, h, Step.refl _ st⟩
+    · simp only [hc, if_true]
+      cases own.penEmitFg with
+      | none => exact postOp_of_post own rfl h.2 (good (.emitter (own.wf ev) ev) st h.1 hro trivial)
+      | some n => exact postOp_of_post own rfl h.2 (good (.pen [.setCol n]) st h.1 hro trivial)
+    · simp only [hc]; exact Or.inl ⟨h.1.alive.2, h, hro, Step.refl _ st⟩
+  | pen op =>
+    simp only [execOp]
+    cases op.isRegion with
+    | true => simp only [if_true]; exact postOp_of_post own rfl h.2 (good (.penRegion op.body) st h.1 hro trivial)
+    | false => simp only [Bool.false_eq_true, if_false]; exact postOp_of_post own rfl h.2 (good (.pen op.body) st h.1 hro trivial)
   | destroy => exact absurd rfl hne
 
 /-- What a whole history guarantees. -/
-def PostOps (st : St) (ops : List Op) : Res St → Prop
-  | .ok st' => TraceOk st'.log ∧ (Op.destroy ∉ ops → st'.dead = false → Top st' ∧ st.nextOcc ≤ st'.nextOcc)
+def PostOps (own : Owner) (st : St) (ops : List Op) : Res St → Prop
+  | .ok st' => TraceOk st'.log ∧ (Op.destroy ∉ ops → st'.dead = false → Top st' ∧ st.nextOcc ≤ st'.nextOcc ∧ RefOk own st')
   | .ub _ => False
   | .outOfFuel => True
 
 theorem execOps_good (hs : Safe own beh) (fuel : Nat) : ∀ (ops : List Op) (st : St), (∀ op ∈ ops, OpOk op) → Top st →
-    PostOps st ops (execOps Cfg.repaired own beh fuel ops st) := by
+    RefOk own st → PostOps own st ops (execOps Cfg.repaired own beh fuel ops st) := by
   intro ops
   induction ops with
-  | nil => intro st _ h; exact ⟨h.1.trace, fun _ _ => ⟨h, Nat.le_refl _⟩⟩
+  | nil => intro st _ h hro; exact ⟨h.1.trace, fun _ _ => ⟨h, Nat.le_refl _, hro⟩⟩
   | cons op rest ih =>
-    intro st hops h
+    intro st hops h hro
     simp only [execOps]
     by_cases hd : op = .destroy
     · subst hd
@@ -2070,17 +2476,17 @@ theorem execOps_good (hs : Safe own beh) (fuel : Nat) : ∀ (ops : List Op) (st 
         simp only [Res.dropRet, decide_true, Bool.true_or, if_true]
         obtain ⟨_, seg, hseg, _, hshape⟩ := destroyLoop_spec own beh _ _ _ _ _ hfn hc
         refine ⟨by rw [hseg]; exact h.1.trace.append_destroy hshape, fun hn => absurd (List.mem_cons_self ..) hn⟩
-    · have hpo := execOp_good own beh hs fuel op (hops op (List.mem_cons_self ..)) hd st h
+    · have hpo := execOp_good own beh hs fuel op (hops op (List.mem_cons_self ..)) hd st h hro
       cases hc : execOp Cfg.repaired own beh fuel op st with
       | outOfFuel => trivial
       | ub w => rw [hc] at hpo; exact hpo.elim
       | ok st' =>
         rw [hc] at hpo
         simp only [hd, decide_false, Bool.false_or]
-        rcases hpo with ⟨hd', htop, s⟩ | ⟨hd', htr, _⟩
+        rcases hpo with ⟨hd', htop, hro', s⟩ | ⟨hd', htr, _⟩
         · rw [hd']
           simp only [Bool.false_eq_true, if_false]
-          have hr := ih st' (fun o ho => hops o (List.mem_cons_of_mem _ ho)) htop
+          have hr := ih st' (fun o ho => hops o (List.mem_cons_of_mem _ ho)) htop hro'
           cases hc2 : execOps Cfg.repaired own beh fuel rest st' with
           | outOfFuel => trivial
           | ub w => rw [hc2] at hr; exact hr.elim
@@ -2088,7 +2494,7 @@ theorem execOps_good (hs : Safe own beh) (fuel : Nat) : ∀ (ops : List Op) (st 
             rw [hc2] at hr
             refine ⟨hr.1, fun hn hal => ?_⟩
             have := hr.2 (fun hm => hn (List.mem_cons_of_mem _ hm)) hal
-            exact ⟨this.1, Nat.le_trans s.occMono this.2⟩
+            exact ⟨this.1, Nat.le_trans s.occMono this.2.1, this.2.2⟩
         · rw [hd']
           simp only [if_true]
           exact ⟨htr, fun _ hal => by rw [hd'] at hal; cases hal⟩
@@ -2657,7 +3063,7 @@ theorem runEvent_spec (hs : Safe own beh) {fuel : Nat} {wf : Bool} {ev : Int} {s
     have h1 : Inv { st with isIter := true, nextOcc := st.nextOcc + 1, log := Ev.occBegin st.nextOcc ev wf :: st.log } :=
       h.of_push ⟨rfl, rfl⟩ rfl rfl rfl rfl (by simp [Ev.key?]) (by simp [EvOk]) (fun b hb' ht => ⟨rfl, (h.tombIter b hb' ht).2⟩)
     have hro1 : RefOk own { st with isIter := true, nextOcc := st.nextOcc + 1, log := Ev.occBegin st.nextOcc ev wf :: st.log } :=
-      fun ho _ => hokr ho
+      ⟨hro.1, fun ho => by have := hokr ho; simpa using this⟩
     have hok : TaskOk own beh (.walk wf ev st.nextOcc (firstOf st.list))
         { st with isIter := true, nextOcc := st.nextOcc + 1, log := Ev.occBegin st.nextOcc ev wf :: st.log } :=
       ⟨rfl, fun k hk => firstOf_mem hk, Nat.lt_succ_self _⟩
